@@ -231,3 +231,97 @@ def _ifd_verify(registry=None, quick=False):
 
 
 _c.verify = _ifd_verify
+
+
+# ---------------------------------------------------------------------------
+# FieldConstraints.to_dict_value / DatasetConstraints.to_dict (C09): what is written is, per field, one entry
+# per constraint kind in the standard order (then the rest sorted), each rendered by that constraint's own
+# to_dict_value with the same `raw` flag; fields in their stored order; creation metadata first when present.
+# ---------------------------------------------------------------------------
+from collections import OrderedDict as _OD
+
+_FC_KEYSETS = []
+for _r in range(0, 4):
+    for _c in itertools.permutations(('rex', 'type', 'max', 'zzz', 'min', 'allowed_values'), _r):
+        _FC_KEYSETS.append(list(_c))
+_FC_KEYSETS = _FC_KEYSETS[::3]         # every third insertion order: 0..3 kinds of 6, in varying stored orders
+
+
+def _fc_view(it):
+    rc = extract.load_module('tdda/constraints/base.py').classes['FieldConstraints']
+    keys = _FC_KEYSETS[it.path.choose([True] * len(_FC_KEYSETS))]
+    cons = _OD()
+    rendered = {}
+    for k in keys:
+        c = SObj('Constraint', {'kind': k, '__open__': False}, label='constraint:' + k)
+
+        def tdv(it2, self, raw=False, k=k):
+            rendered[k] = (it2.fresh_opaque('rendered_' + k), raw)
+            return rendered[k][0]
+        c.methods['to_dict_value'] = Builtin(tdv, 'Constraint.to_dict_value')
+        cons[k] = c
+    o = SObj('FieldConstraints', {'name': it.fresh_str('name'), 'constraints': cons}, label='self')
+    o.repo_class = rc
+    it.ghost['fc'] = (keys, rendered)
+    return o
+
+
+@specfn
+def field_entry_ok(it, result, raw):
+    keys, rendered = it.ghost['fc']
+    want = [k for k in STANDARD if k in keys] + sorted(set(keys) - set(STANDARD))
+    if list(result.keys()) != want:
+        return False
+    return all(k in rendered and result[k] is rendered[k][0] and rendered[k][1] is raw for k in want)
+
+
+contract(BASE + 'FieldConstraints.to_dict_value', props=['C09'],
+         params=dict(raw=T.union(T.const(False), T.const(True))), self_view=_fc_view,
+         inline=[BASE + 'to_preferred_order'], spec_env=dict(ENV, field_entry_ok=field_entry_ok),
+         ensures=[('one-entry-per-kind-in-the-standard-order-rendered-by-the-constraint-itself',
+                   'field_entry_ok(result, raw)')])
+
+
+def _dc_view(it):
+    rc = extract.load_module('tdda/constraints/base.py').classes['DatasetConstraints']
+    names = [['b', 'a'], ['a'], [], ['x y', 'é', 'a']][it.path.choose([True] * 4)]
+    fields = _OD()
+    rendered = {}
+    for n in names:
+        f = SObj('FieldConstraints', {'name': n, '__open__': False}, label='field:' + n)
+
+        def tdv(it2, self, raw=False, n=n):
+            rendered[n] = it2.fresh_opaque('entry_' + n)
+            return rendered[n]
+        f.methods['to_dict_value'] = Builtin(tdv, 'FieldConstraints.to_dict_value')
+        fields[n] = f
+    has_md = it.path.choose([True, True]) == 1
+    md = {'tdda': 'x'} if has_md else None
+    o = SObj('DatasetConstraints', {'fields': fields}, label='self')
+    o.repo_class = rc
+    o.methods['get_metadata'] = Builtin(lambda it2, self, tddafile=None: md, 'get_metadata')
+
+    def hook(it2, self, d):
+        if it2.path.choose([True, True]) == 1:
+            raise PyExc('AttributeError', 'no postdicthook')
+        return None
+    o.methods['postdicthook'] = Builtin(hook, 'postdicthook')
+    it.ghost['dc'] = (names, rendered, md)
+    return o
+
+
+@specfn
+def dataset_dict_ok(it, result):
+    names, rendered, md = it.ghost['dc']
+    want = (['creation_metadata'] if md else []) + ['fields']
+    if list(result.keys()) != want:
+        return False
+    if md and result['creation_metadata'] is not md:
+        return False
+    f = result['fields']
+    return list(f.keys()) == list(names) and all(f[n] is rendered[n] for n in names)
+
+
+contract(BASE + 'DatasetConstraints.to_dict', props=['C09'], params=dict(tddafile=T.union(T.none, T.str)),
+         self_view=_dc_view, spec_env=dict(ENV, dataset_dict_ok=dataset_dict_ok),
+         ensures=[('fields-in-stored-order-each-rendered-by-the-field-metadata-first', 'dataset_dict_ok(result)')])
